@@ -20,7 +20,11 @@ RULE = ("assign_to_nearest_center with 1..8 centres that are frames or arbitrary
         "estimator predict on new data, ClusterResult.partition with equal and unequal lengths incl. length-1 trajectories and "
         "centre indices on trajectory boundaries, partition_indices / partition_list directly (incl. wrong totals), "
         "find_cluster_centers with label gaps and distance ties, compute_batches; batch_reassign on generated md trajectories "
-        "against per-frame RMSD. non-trivial := >= 2 trajectories or >= 2 centres")
+        "against per-frame RMSD (one, two and three-or-more batches). Streams: 33..100 centres (assign, predict); data in non-contiguous "
+        "memory layouts (metric evaluated on a fresh contiguous copy); a metric returning one reused buffer; md.Trajectory frames with "
+        "centres in one md.Trajectory (frame-by-frame branch) or a list; estimator predict histories fit(A)/predict(short)/fit(B)/"
+        "predict(short)/predict(long) for KCenters and KHybrid on md.Trajectory data, each predict judged against the centres of the "
+        "latest fit. non-trivial := >= 2 trajectories or >= 2 centres")
 SHARD = 100
 
 
@@ -80,14 +84,140 @@ def generate(rng, tier):
         lens = [rng.randint(lim // 2, lim - 1) for _ in range(rng.randint(2, 3))]
         n = sum(lens)
         cases.append({"kind": "plist", "n": n, "lens": lens, "lens_dtype": dt, "vals": [rng.randrange(100) for _ in range(n)]})
-    nb = 4 if tier == "quick" else 30
+    # many centres (the per-centre sweep, 33..100 centres, few frames: the model's cost is centres x frames)
+    for _ in range(12 if tier == "quick" else 80):
+        base = cc._base(rng, 6, pam=False)
+        n = base["n"]
+        k = rng.choice([33, 34, 40, 47, 63, 64, 65, 70, 96, 97, 100, rng.randint(33, 100)])
+        c = dict(base, kind="assign", many=True)
+        if base["metric"] == "matrix":
+            c["centers"] = [rng.randrange(n) for _ in range(k)]
+        else:
+            dim = len(base["X"][0])
+            hi = rng.choice([12, 20, 30])      # few coincident centres: the nearest one may sit anywhere in the list
+            c["center_pts"] = [[rng.randrange(hi) for _ in range(dim)] if rng.random() < 0.9 else list(rng.choice(base["X"]))
+                               for _ in range(k)]
+            c["cen_form"] = rng.choice(["array", "list"])
+        cases.append(c)
+    for _ in range(6 if tier == "quick" else 40):
+        base = cc._base(rng, 12, pam=False)
+        while base["metric"] == "matrix":
+            base = cc._base(rng, 12, pam=False)
+        n = rng.randint(36, 72)
+        dim = rng.randint(1, 3)
+        base.update(X=cc.gen_points(rng, n, dim, 12), n=n)
+        cases.append(dict(base, kind="predict", many=True, k=rng.randint(33, n),
+                          Y=cc.gen_points(rng, rng.randint(2, 5), dim, 12)))
+    # md.Trajectory data and centres held in one md.Trajectory (user metric on time stamps): with more centres
+    # than frames assign_to_nearest_center works frame by frame (argmin over all centres)
+    for _ in range(10 if tier == "quick" else 80):
+        n = rng.randint(1, 6)
+        N = rng.randint(max(n, 3), 9)
+        M, tri = cc.gen_matrix(rng, N, rng.choice([3, 6, 12]))
+        k = rng.randint(1, 10)
+        cases.append({"kind": "assign", "metric": "matrix", "traj": True, "M": M, "tri": tri, "n": n,
+                      "frames": [rng.randrange(N) for _ in range(n)], "centers": [rng.randrange(N) for _ in range(k)],
+                      "cen_form": rng.choice(["traj", "traj", "list"]), "buf": rng.random() < 0.2})
+    # estimator histories: fit(A) / predict(short) / fit(B) / predict(short) / predict(long) ... on md.Trajectory
+    # data (short = fewer frames than centres), KCenters and KHybrid; every predict must use the centres of
+    # the latest fit
+    for i in range(14 if tier == "quick" else 120):
+        cases.append(_gen_phist(rng, i))
+    nb = 6 if tier == "quick" else 30
     combos = [("reassign", "traj-precentered"), ("reassign", "traj"), ("reassign", "list"), ("batch_reassign", "list")]
     for bi in range(nb):
         L = [rng.randint(1, 6) for _ in range(rng.randint(2, 6))]
+        if bi % 2 == 1:      # many short trajectories, small batches: three or more batches
+            L = [rng.randint(1, 4) for _ in range(rng.randint(6, 10))]
         cases.append({"kind": "batch_reassign", "lens": L, "batch_frames": rng.randint(max(L) + 1, max(L) + 6),
                       "seed": rng.randrange(10 ** 6), "k": rng.randint(2, 4),
                       "entry": combos[bi % 4][0], "cform": combos[bi % 4][1]})
     return cases
+
+
+def _gen_phist(rng, i):
+    N = rng.randint(6, 12)
+    M, tri = cc.gen_matrix(rng, N, rng.choice([3, 6, 12]))
+    c = {"kind": "phist", "M": M, "tri": tri, "N": N, "est": ["kcenters", "khybrid"][i % 2],
+         "seed": rng.randrange(10 ** 6), "n_iters": rng.randint(0, 2), "data": {}, "k": {}}
+    for name in ("A", "B"):
+        c["data"][name] = rng.sample(range(N), rng.randint(4, N))
+        c["k"][name] = rng.randint(2, min(5, len(c["data"][name])))
+    kmin = min(c["k"].values())
+    c["data"]["P"] = [rng.randrange(N) for _ in range(rng.randint(1, kmin - 1))]          # fewer frames than centres
+    c["data"]["Q"] = [rng.randrange(N) for _ in range(rng.randint(max(c["k"].values()) + 1, N + 3))]
+    steps = [rng.choice(["fitA", "fitB"])]
+    for _ in range(rng.randint(3, 6)):
+        last_fit = [s for s in steps if s.startswith("fit")][-1]
+        steps.append(rng.choice(["predP", "predP", "predQ", "fitB" if last_fit == "fitA" else "fitA"]))
+    if steps[-1].startswith("fit"):
+        steps.append("predP")
+    if not any(s == "predP" for s in steps):
+        steps.append("predP")
+    if i % 4 in (1, 2):
+        steps = ["fitA", "predP", "fitB", "predP", "predQ"] if rng.random() < 0.5 else ["fitB", "predQ", "predP", "fitA", "predQ", "predP"]
+    c["steps"] = steps
+    c["via"] = rng.choice(["set_params", "attr"])
+    if i % 3 == 0:                   # the same history on numeric arrays with a library metric
+        dim = rng.randint(1, 3)
+        c.update(metric=rng.choice(["euclidean", "manhattan"]), pts=cc.gen_points(rng, N, dim, 10),
+                 dtype=rng.choice(["float64", "float32"]), tri=True)
+        del c["M"]
+    return c
+
+
+def _tt(M, idx):
+    """md.Trajectory whose frames are the universe members idx (told apart by time stamp)"""
+    import mdtraj as md
+    top = md.Topology()
+    top.add_atom("CA", md.element.carbon, top.add_residue("ALA", top.add_chain()))
+    return md.Trajectory(np.zeros((len(idx), 1, 3), dtype=np.float32), top, time=np.array(idx, dtype=float))
+
+
+def _phist(c):
+    from enspara.cluster import kcenters as KC, hybrid as KH, util
+    out = {}
+    if "pts" in c:
+        U = np.array(c["pts"], dtype=c["dtype"])
+        dmt = c["metric"]
+        ref = util._get_distance_method(c["metric"])
+        out["M"] = [[str(F(float(v))) for v in ref(U, U[j])] for j in range(len(U))]
+        where = {tuple(p): i for i, p in enumerate(c["pts"])}
+        ident = lambda x: where[tuple(int(v) for v in np.asarray(x).ravel())]
+        build = lambda M_, idx: U[list(idx)]
+    else:
+        M = np.array(c["M"], dtype=float)
+
+        def dmt(X, y):
+            return M[np.asarray(X.time).astype(int), int(np.asarray(y.time)[0])]
+        ident = lambda x: int(np.asarray(x.time)[0])
+        build = _tt
+    first = c["steps"][0][3:]
+    if c["est"] == "kcenters":
+        est = KC.KCenters(dmt, n_clusters=c["k"][first])
+    else:
+        est = KH.KHybrid(dmt, n_clusters=c["k"][first], kmedoids_updates=c["n_iters"], random_state=c["seed"])
+    preds, fitted = [], None
+    for st in c["steps"]:
+        name = st[-1]
+        idx = c["data"][name]
+        T = build(None if "pts" in c else M, idx)
+        if st.startswith("fit"):
+            if c["via"] == "set_params":
+                est.set_params(n_clusters=c["k"][name])
+            else:
+                est.n_clusters = c["k"][name]
+            est.fit(T)
+            fitted = [int(idx[int(i)]) for i in est.result_.center_indices]        # universe members that are centres now
+        else:
+            r = est.predict(T)
+            cen_now = [ident(x) for x in est.centers_]
+            preds.append({"step": st, "centres": list(fitted), "frames": [int(v) for v in idx],
+                          "asg": [int(v) for v in r.assignments], "dst": [str(F(float(v))) for v in r.distances],
+                          "fcc": [int(v) for v in r.center_indices],
+                          "centers_kept": bool(cen_now == fitted and [ident(x) for x in r.centers] == fitted)})
+    out["preds"] = preds
+    return out
 
 
 def _make_top(n_atoms):
@@ -137,7 +267,7 @@ def _batch_reassign(c):
             trj = md.load(fn)
             ref = np.array([md.rmsd(trj, centers, frame=j) for j in range(k)])
             rows.append({"asg": [int(v) for v in asg[i]], "dst": [float(v) for v in dst[i]], "ref": ref.tolist()})
-        return {"rows": rows, "batch_size": int(bs)}
+        return {"rows": rows, "batch_size": int(bs), "n_batches": len(util.compute_batches(c["lens"], bs))}
     finally:
         shutil.rmtree(tmp, ignore_errors=True)
 
@@ -147,23 +277,49 @@ def run_impl(c):
     from enspara.ra import ra
     kind = c["kind"]
     try:
+        if kind == "assign" and c.get("traj"):
+            M = np.array(c["M"], dtype=float)
+            X = _tt(M, c["frames"])
+            cen = _tt(M, c["centers"])
+            if c["cen_form"] == "list":
+                cen = [cen[i] for i in range(len(cen))]
+            dm = cc.make_metric(c)
+            h0, hc = cc.xhash(X), (cc.xhash(cen) if c["cen_form"] == "traj" else None)
+            with cc.Watchdog():
+                a, d = util.assign_to_nearest_center(X, cen, dm)
+            return {"Mc": [[str(F(M[f, j])) for f in c["frames"]] for j in c["centers"]], "asg": [int(v) for v in a],
+                    "dst": [str(F(float(v))) for v in d],
+                    "unchanged": cc.xhash(X) == h0 and (hc is None or cc.xhash(cen) == hc)}
         if kind == "assign":
             X = cc.make_X(c)
             dm = util._get_distance_method(cc.make_metric(c))
+            ref = util._get_distance_method(cc.make_metric(c, plain=True))
             cen = X[c["centers"]] if "centers" in c else np.array(c["center_pts"], dtype=X.dtype)
+            if c.get("cen_form") == "list":
+                cen = [row for row in cen]
             h0 = cc.xhash(X)
-            a, d = util.assign_to_nearest_center(X, cen, dm)
-            return {"Mc": [[str(F(float(v))) for v in dm(X, y)] for y in cen], "asg": [int(v) for v in a],
+            with cc.Watchdog():
+                a, d = util.assign_to_nearest_center(X, cen, dm)
+            Xc = np.array(X, order="C", copy=True)       # the metric on the values: evaluated on a fresh contiguous copy
+            return {"Mc": [[str(F(float(v))) for v in ref(Xc, np.array(y))] for y in cen], "asg": [int(v) for v in a],
                     "dst": [str(F(float(v))) for v in d], "unchanged": cc.xhash(X) == h0}
         if kind == "predict":
             X = cc.make_X(c)
-            Y = np.array(c["Y"], dtype=X.dtype)
-            est = KC.KCenters(c["metric"], n_clusters=c["k"]).fit(X)
-            r = est.predict(Y)
-            dm = util._get_distance_method(c["metric"])
-            return {"Mc": [[str(F(float(v))) for v in dm(Y, y)] for y in est.centers_], "asg": [int(v) for v in r.assignments],
+            Y = cc.layout_of(np.array(c["Y"], dtype=X.dtype), c.get("layout"))
+            with cc.Watchdog():
+                est = KC.KCenters(cc.make_metric(c), n_clusters=c["k"]).fit(X)
+                h0 = cc.xhash(Y)
+                r = est.predict(Y)
+            ref = util._get_distance_method(c["metric"])
+            Yc = np.array(Y, order="C", copy=True)
+            return {"Mc": [[str(F(float(v))) for v in ref(Yc, np.array(y))] for y in est.centers_], "asg": [int(v) for v in r.assignments],
                     "dst": [str(F(float(v))) for v in r.distances], "fcc": [int(v) for v in r.center_indices],
-                    "centers_kept": all(np.array_equal(a, b) for a, b in zip(r.centers, est.centers_))}
+                    "unchanged": cc.xhash(Y) == h0,
+                    "centers_kept": len(r.centers) == len(est.centers_) and all(np.array_equal(a, b) for a, b in zip(r.centers, est.centers_))
+                                    and all(np.array_equal(a, X[int(i)]) for a, i in zip(est.centers_, est.result_.center_indices))}
+        if kind == "phist":
+            with cc.Watchdog(60):
+                return _phist(c)
         if kind == "partition":
             res = util.ClusterResult(center_indices=list(c["ctrs"]), assignments=np.array(c["asg"]),
                                      distances=np.array(c["dst"], dtype=float), centers=[None] * len(c["ctrs"]))
@@ -211,6 +367,24 @@ def oracle(c, r):
                 exp.append(min(mem, key=lambda f: (F(r["dst"][f]), f)))
             if r["fcc"] != exp:
                 out.append(("find-centers", "got %s expected %s" % (r["fcc"], exp)))
+    elif kind == "phist":
+        M = c["M"] if "M" in c else r["M"]
+        for p in r["preds"]:
+            cen, fr = p["centres"], p["frames"]
+            for f, (a, d) in enumerate(zip(p["asg"], p["dst"])):
+                col = [F(M[j][fr[f]]) for j in cen]
+                if not (0 <= a < len(cen)) or F(d) != col[a] or F(d) != min(col):
+                    out.append(("nearest", "history %s, step %s: frame %d (universe member %d) got label %d distance %s; distances "
+                                "to the centres of the latest fit %s are %s" % (c["steps"], p["step"], f, fr[f], a, d, cen, [str(x) for x in col])))
+                    break
+            if not p["centers_kept"]:
+                out.append(("predict-centers", "history %s, step %s: predict did not report the centres of the latest fit" % (c["steps"], p["step"])))
+            exp = []
+            for lab in sorted(set(p["asg"])):
+                mem = [f for f, a in enumerate(p["asg"]) if a == lab]
+                exp.append(min(mem, key=lambda f: (F(p["dst"][f]), f)))
+            if p["fcc"] != exp:
+                out.append(("find-centers", "got %s expected %s" % (p["fcc"], exp)))
     elif kind == "partition":
         lens = c["lens"]
         sq = all(l == lens[0] for l in lens)
@@ -250,7 +424,10 @@ def oracle(c, r):
             for i, row in enumerate(r["rows"]):
                 ref = np.array(row["ref"])
                 for j, (a, d) in enumerate(zip(row["asg"], row["dst"])):
-                    if not (0 <= a < ref.shape[0]) or abs(ref[a, j] - d) > 1e-4 or ref[a, j] > ref[:, j].min() + 1e-4:
+                    # mdtraj's RMSD works in float32: its error is an absolute error of the mean *squared* deviation
+                    # (observed up to 4.6e-6 over 6000 frame/centre pairs), i.e. 2e-4 in the RMSD itself at RMSD 0.012
+                    if not (0 <= a < ref.shape[0]) or (abs(ref[a, j] - d) > 1e-4 and abs(ref[a, j] ** 2 - d ** 2) > 5e-5) \
+                            or ref[a, j] > ref[:, j].min() + 1e-4:
                         out.append(("batch-reassign-nearest", "trajectory %d frame %d label %d dist %s ref %s" % (i, j, a, d, ref[:, j].tolist())))
                         break
     return out
@@ -272,6 +449,16 @@ def coq_check(c, r):
         if kind == "predict":
             t = "(%s && nat_list_eqb (find_cluster_centers (snd %s)) %s)%%bool" % (t, st, clist(r["fcc"], cn, "nat"))
         return t
+    if kind == "phist":
+        ts = []
+        MM = c["M"] if "M" in c else r["M"]
+        for p in r["preds"]:
+            Mc = [[str(F(MM[j][f])) for f in p["frames"]] for j in p["centres"]]
+            st = "(nearest_state (Dm %s) (seq 0 %s) %s)" % (clist(Mc, lambda row: clist(row, _q, "Q"), "(list Q)"),
+                                                            cn(len(Mc)), cn(len(p["frames"])))
+            ts.append("nat_list_eqb (labels %s) %s && q_list_eqb (dists %s) %s && nat_list_eqb (find_cluster_centers (snd %s)) %s" % (
+                st, clist(p["asg"], cn, "nat"), st, clist(p["dst"], _q, "Q"), st, clist(p["fcc"], cn, "nat")))
+        return "(%s)%%bool" % " && ".join(ts)
     if kind == "partition":
         exp_ctr = clist(r["ctr"], lambda p: "(%s, %s)" % (cz(p[0]), cz(p[1])), "(Z * Z)")
         return ("(let p := partition_result %s %s %s %s in Bool.eqb (p_square p) %s && "
@@ -304,6 +491,8 @@ def nontrivial(c, r):
     if "err" in r:
         return False
     k = c["kind"]
+    if k == "phist":
+        return len(r["preds"]) >= 2
     if k in ("assign", "predict"):
         return len(r["Mc"]) >= 2 and len(r["asg"]) >= 2
     if k in ("partition", "plist", "batches", "batch_reassign"):
@@ -325,8 +514,33 @@ def tags(c, r):
         t.append("narrow-dtype-lengths")
     if c["kind"] == "fcc" and len(set(c["asg"])) < max(c["asg"]) + 1:
         t.append("label-gap")
+    if c["kind"] in ("assign", "predict"):
+        if len(r.get("Mc", [])) > 32:
+            t.append(c["kind"] + "-more-than-32-centres")
+        if c.get("layout") and c.get("metric") != "matrix" and c["layout"] != "readonly":
+            t.append("non-contiguous-data")
+        if c.get("buf"):
+            t.append("buffer-reusing-metric")
+        if c.get("traj"):
+            t.append("md-trajectory-centres" if c["cen_form"] == "traj" else "md-trajectory-frames-list-centres")
+            if c["cen_form"] == "traj" and len(c["centers"]) > c["n"]:
+                t.append("frame-by-frame-branch")
+    if c["kind"] == "phist" and "preds" in r:
+        t.append("predict-history-" + c["est"])
+        t.append("predict-history-ndarray" if "pts" in c else "predict-history-md-trajectory")
+        seen_fit = 0
+        for s in c["steps"]:
+            if s.startswith("fit"):
+                seen_fit += 1
+            elif seen_fit >= 2:
+                t.append("predict-short-after-refit" if s == "predP" else "predict-long-after-refit")
+    if c["kind"] == "batch_reassign" and "n_batches" in r:
+        t.append("reassign-%s-batches" % ("1" if r["n_batches"] == 1 else "2" if r["n_batches"] == 2 else "3+"))
     return t
 
 
-ESSENTIAL_TAGS = ["narrow-dtype-lengths", "assign", "predict", "partition", "plist", "fcc", "batches", "batch_reassign", "square", "ragged",
+ESSENTIAL_TAGS = ["assign-more-than-32-centres", "predict-more-than-32-centres", "non-contiguous-data", "buffer-reusing-metric",
+                  "md-trajectory-centres", "frame-by-frame-branch", "predict-history-kcenters", "predict-history-khybrid", "predict-history-ndarray", "predict-history-md-trajectory",
+                  "predict-short-after-refit", "predict-long-after-refit", "reassign-3+-batches",
+                  "narrow-dtype-lengths", "assign", "predict", "partition", "plist", "fcc", "batches", "batch_reassign", "square", "ragged",
                   "length-1-trajectory", "more-centres-than-frames", "several-batches", "label-gap"]
